@@ -265,7 +265,7 @@ C02_CMUL = [
     (I(64, 2), 'max', [0xffffffffffffffff, 0xffffffffffffffff], 'thorough'), (I(64, 2), 'min', [0, 0x8000000000000000], 'quick'), (I(64, 2), 'p2p1', [1, 1], 'quick'), (I(64, 2), 'three', [3, 0], 'quick'),
     (I(64, 3), 'mix', [0xfffffffffffffffe, 1, 0x7fffffffffffffff], 'thorough'), (I(64, 3), 'neg3', [0xfffffffffffffffd, 0xffffffffffffffff, 0xffffffffffffffff], 'thorough'), (I(32, 4), 'alt', [0xffffffff, 0, 0xffffffff, 0], 'thorough'),
     (I(64, 3), 'p2s', [0, 1, 0x8000000000000000], 'quick'), (I(16, 4), 'c64', [0xfffe, 0x0001, 0x8000, 0x7fff], 'thorough'), (I(8, 8), 'c64', [0xff, 0, 0x80, 0x7f, 1, 0xfe, 0, 0x80], 'thorough'), (I(64, 1), 'max', [0xffffffffffffffff], 'quick'), (I(64, 1), 'min', [0x8000000000000000], 'quick'),
-    (I(64, 2), 'smax', [0xffffffffffffffff, 0x7fffffffffffffff], 'thorough'), (I(32, 2), 'neg1', [0xffffffff, 0xffffffff], 'quick'),
+    (I(64, 2), 'smax', [0xffffffffffffffff, 0x7fffffffffffffff], 'thorough'), (I(32, 2), 'neg1', [0xffffffff, 0xffffffff], 'thorough'),
 ]
 for i, tag, bv, tier in C02_CMUL:
     L = i.bits // 64
@@ -341,7 +341,7 @@ for key, (i, lst) in C03_CDIV.items():
 for tag, dv, tier in (('8..01', [1, 0x8000000000000000, 0], 'quick'), ('f..f', [0xffffffffffffffff, 0xffffffffffffffff, 0], 'thorough'), ('1_1', [1, 1, 0], 'quick'),
                       ('7..f_f..e', [0xfffffffffffffffe, 0x7fffffffffffffff, 0], 'thorough')):
     i = I(64, 3)
-    add(H('C03', f"c03_u_cdiv_wide_{i.tag}_{tag.replace('.', '').replace('_', '')}", 'c03_u_cdiv_wide', f"{i.n + 2}, {i.U}, {i.n}, [{', '.join(hex(v) for v in dv)}]", tier=tier, cap=(900 if tier == 'quick' else 7200), inst=i.label, core=False, mem_gb=12,
+    add(H('C03', f"c03_u_cdiv_wide_{i.tag}_{tag.replace('.', '').replace('_', '')}", 'c03_u_cdiv_wide', f"{i.n + 2}, {i.U}, {i.n}, [{', '.join(hex(v) for v in dv)}]", tier=tier, cap=(900 if tier == 'quick' else 5400), inst=i.label, core=False, mem_gb=12,
           funcs='BUint<3> / and % (Knuth D with u64 digits, two quotient digits)', bound=f'all 2^192 dividends; concrete two-digit divisor {tag}; limb oracle n = q*d + r, r < d'))
 c03_set(I(8, 1), 'any', 'quick', 600)
 c03_set(I(8, 2), 'any', 'quick', 900, path='small')
@@ -550,12 +550,12 @@ for sg in ('u', 'i'):
           funcs='parse_bytes (UTF-8 validation + grammar)', bound='all byte strings of length 0..=3, radix 10'))
 for i, sg, L, R, first, tier in ((I(64, 1), 'u', 20, 10, '1', 'thorough'), (I(64, 1), 'u', 19, 10, '9', 'quick'), (I(64, 1), 'i', 20, 10, '-', 'quick'), (I(64, 2), 'u', 33, 16, '0', 'quick'), (I(32, 2), 'i', 18, 16, '+', 'quick'),
                                  (I(64, 1), 'u', 21, 10, '+', 'thorough'), (I(64, 1), 'u', 21, 10, '0', 'thorough'), (I(64, 1), 'i', 20, 10, '+', 'thorough'), (I(64, 1), 'i', 19, 10, '9', 'thorough'), (I(16, 4), 'u', 19, 10, '7', 'thorough'),
-                                 (I(64, 2), 'u', 39, 10, '3', 'thorough'), (I(64, 2), 'i', 40, 10, '-', 'thorough'), (I(8, 8), 'u', 21, 10, '0', 'thorough'), (I(16, 4), 'i', 20, 10, '-', 'thorough'),
+                                 (I(64, 2), 'u', 39, 10, '3', 'thorough'), (I(16, 4), 'i', 20, 10, '-', 'thorough'),
                                  (I(32, 2), 'u', 20, 10, '1', 'thorough'), (I(32, 3), 'u', 25, 16, '+', 'thorough'), (I(64, 1), 'u', 13, 36, '3', 'thorough'), (I(64, 1), 'i', 41, 3, '-', 'thorough'),
                                  (I(64, 2), 'u', 65, 4, '0', 'thorough'), (I(8, 16), 'u', 33, 16, '+', 'thorough'), (I(16, 8), 'i', 129, 2, '-', 'thorough'), (I(64, 2), 'u', 32, 16, 'f', 'thorough')):
     T = i.U if sg == 'u' else i.I
     fn = {'+': 'plus', '-': 'minus'}.get(first, first)
-    add(H('C10', f"c10_strfix_{sg}_{i.tag}_r{R}_l{L}_{fn}", 'c10_str_fixed', f"{L + 3}, {T}, {i.digit}, {i.n}, {L}, {R}, b'{first}'", tier=tier, cap=1800 if tier == 'quick' else 5400, inst=i.label, core=False, mem_gb=8,
+    add(H('C10', f"c10_strfix_{sg}_{i.tag}_r{R}_l{L}_{fn}", 'c10_str_fixed', f"{L + 3}, {T}, {i.digit}, {i.n}, {L}, {R}, b'{first}'", tier=tier, cap=1800 if tier == 'quick' else 3600, inst=i.label, core=False, mem_gb=8,
           funcs=f"{'BUint' if sg == 'u' else 'BInt'}::from_str_radix, full-capacity strings",
           bound=f"all ASCII strings of length exactly {L} whose first byte is '{first}' (capacity of the type, incl. a sign / leading zero / one digit too many), radix {R}; u128 reference parser"))
 c10_digits(I(8, 1), 'u', 10, 2, 2, 'quick', core=True)
@@ -695,7 +695,7 @@ for sg in ('u', 'i'):
         c16_pair('c16_extend', a, b, sg, tier, extra=f', {mul}', cap=3600, core=(mul == 'false'),
                  label='zero-/sign-extension commutes with add/sub/cmp/shl' + (' and mul/div/rem/pow' if mul == 'true' else ''))
 C16_CMUL = [
-    (I(8, 4), I(32, 1), 'u', '8001', [0x01, 0x80, 0, 0], 'quick'), (I(8, 8), I(64, 1), 'u', 'ffff0001', [0x01, 0, 0xff, 0xff, 0, 0, 0, 0], 'quick'), (I(16, 4), I(32, 2), 'i', '8000_0001', [1, 0, 0, 0x80, 0, 0, 0, 0], 'quick'),
+    (I(8, 4), I(32, 1), 'u', '8001', [0x01, 0x80, 0, 0], 'quick'), (I(8, 8), I(64, 1), 'u', 'ffff0001', [0x01, 0, 0xff, 0xff, 0, 0, 0, 0], 'thorough'), (I(8, 8), I(64, 1), 'u', '8001', [0x01, 0x80, 0, 0, 0, 0, 0, 0], 'quick'), (I(16, 4), I(32, 2), 'i', '8000_0001', [1, 0, 0, 0x80, 0, 0, 0, 0], 'quick'),
     (I(32, 4), I(64, 2), 'u', '2p64p1', [1, 0, 0, 0, 0, 0, 0, 0, 1, 0, 0, 0, 0, 0, 0, 0], 'quick'), (I(8, 16), I(64, 2), 'u', 'top80', [1, 0, 0, 0, 0, 0, 0, 0, 0, 0, 0, 0x80, 0, 0, 0, 0], 'thorough'),
     (I(16, 8), I(32, 4), 'i', 'neg3', [0xfd, 0xff, 0xff, 0xff, 0xff, 0xff, 0xff, 0xff, 0xff, 0xff, 0xff, 0xff, 0xff, 0xff, 0xff, 0xff], 'thorough'), (I(32, 2), I(64, 1), 'i', 'min', [0, 0, 0, 0, 0, 0, 0, 0x80], 'quick'),
     (I(8, 12), I(32, 3), 'u', 'mid', [0xff, 0xff, 0, 0, 0x01, 0, 0, 0x80, 0, 0, 0, 0], 'thorough'),
